@@ -351,7 +351,7 @@ func genH2Scen(t *rapid.T) H2ScenCase {
 }
 
 func genH2ScenBeh(t *rapid.T) Beh {
-	switch rapid.IntRange(0, 7).Draw(t, "scenBeh") {
+	switch rapid.IntRange(0, 8).Draw(t, "scenBeh") {
 	case 0:
 		return Beh{Kind: "ok", Body: "{this is not json"}
 	case 1:
@@ -360,12 +360,14 @@ func genH2ScenBeh(t *rapid.T) Beh {
 		return Beh{Kind: "ok", Header: map[string]string{"X-Token": rapid.StringOfN(rapid.RuneFrom([]rune("abcXYZ019")), 0, 8, -1).Draw(t, "shortToken")}}
 	case 3:
 		return Beh{Kind: "ok", Body: `{"other": 1}`, Header: map[string]string{"Content-Type": "text/plain"}}
+	case 8:
+		return Beh{Kind: "ok", Prices: genPrices(t)} // a catalogue page (for var/xpath steps with generated expressions)
 	default:
 		return genH2Beh(t, false, true)
 	}
 }
 
-func goodBeh(b Beh) bool { return b.Kind == "ok" && b.Body == "" && len(b.Header) == 0 }
+func goodBeh(b Beh) bool { return b.Kind == "ok" && b.Body == "" && len(b.Header) == 0 && len(b.Prices) == 0 }
 
 func checkH2Scen(c H2ScenCase, o *vf.Obs) error {
 	tg, mu := target.SharedH2(true)
